@@ -1,4 +1,100 @@
-import MementoModel.Model.RunnerProg
-namespace Memento.Runner
-theorem placeholder_C13 : replay (.val none) = .val none := rfl
-end Memento.Runner
+import MementoModel.Lemmas.VersionCacheLemmas
+import MementoModel.Props.C03
+
+/-!
+# C13 — the in-process version cache is coherent with a from-scratch computation
+
+Model: `Model/VersionCache.lean` — `_update_dependencies` statement by statement (explicit version
+short-cut, cache lookup at the current generation, `did_change` scan of the instance's own recorded
+rules, generation bump, recompute, cache write), objects with identity, modifier clones (which copy
+version and rules) and unregistered wrappers (no version, no rules). Events: (re)define a memento
+function (registration bumps the generation), (re)define a plain function, rebind a variable or define a
+previously undefined symbol (a name without binding becomes bound), replace a memento function by a
+plain one and back (define under the same name), create a clone / a wrapper, ask for a version. In-place
+mutation of a tracked container is a rebinding to the new value at this level (values are compared by
+their serialisation).
+
+`effectiveVersion H (progOf s.sym) id f` is what a fresh process computes for the resulting program
+(`Model/Version.lean`; C03: independent of definition order and set enumeration order).
+
+The cluster lock (excluded by the property) is not modelled. Instances whose function object has been
+replaced since they were made are not part of "the resulting program" (`live`).
+Every definition the events create gets a hash rule (`Def.trackable`): variables of unsupported types
+and functions of other packages are outside the property's program class.
+No assumption on the hash function `H` is needed.
+-/
+namespace Memento.VersionCache
+open Memento.Version
+
+/-- **coherence**: after any sequence of events (with version queries interleaved at any positions, on any
+    instances), asking any live instance for its version succeeds and yields exactly the version computed
+    from scratch for the resulting program -/
+theorem query_eq_fresh (H : Ser → List Char) (evs : List Ev) (i : Nat) (inst : Inst) :
+    let s := run H {} evs
+    s.insts[i]? = some inst → live s inst →
+    (step H s (.query i)).2 = some (effectiveVersion H (progOf s.sym) id inst.name) := by
+  intro s hi hlive
+  exact query_fresh (inv_run (inv_init H) evs) hi hlive
+
+/-- the same for any enumeration order of reference sets and any definition order a fresh process may use (C03) -/
+theorem query_eq_fresh_any_order (H : Ser → List Char) (evs : List Ev) (i : Nat) (inst : Inst)
+    (P' : Prog) (ord' : List Name → List Name) (ho : OrdOK ord') :
+    let s := run H {} evs
+    (∀ n, lookup (progOf s.sym) n = lookup P' n) →
+    s.insts[i]? = some inst → live s inst →
+    (step H s (.query i)).2 = some (effectiveVersion H P' ord' inst.name) := by
+  intro s hP hi hlive
+  rw [← effectiveVersion_deterministic H (progOf s.sym) P' hP id ord' ordOK_id ho]
+  exact query_fresh (inv_run (inv_init H) evs) hi hlive
+
+/-- the criterion the cache relies on, stated on its own: if none of the rules an instance recorded reports a
+    change, its recorded version is the fresh version (whatever happened to the generation counter) -/
+theorem unchanged_rules_imply_fresh (H : Ser → List Char) (evs : List Ev) (inst : Inst) (c : List Char) :
+    let s := run H {} evs
+    inst ∈ s.insts → live s inst → inst.cver = some c → inst.snaps.any (didChange s.sym) = false →
+    version H (progOf s.sym) id inst.name = c := by
+  intro s hmem hlive hc hnc
+  exact no_change_version (inv_run (inv_init H) evs) hmem hlive hc hnc
+
+/-- a query changes no binding: the program, and therefore every fresh version, is the same afterwards
+    (so interleaving queries at every position cannot influence later answers) -/
+theorem query_keeps_program (H : Ser → List Char) (s : St) (i : Nat) : (query H s i).1.sym = s.sym := by
+  unfold query
+  cases s.insts[i]? with
+  | none => rfl
+  | some inst =>
+    simp only
+    cases lookupB s.sym inst.name with
+    | none => rfl
+    | some b =>
+      simp only
+      split
+      · rfl
+      · split
+        · rfl
+        · cases cacheGet s.cache inst.name with
+          | none => rfl
+          | some gv =>
+            obtain ⟨g, v⟩ := gv
+            simp only
+            split
+            · split
+              · rfl
+              · cases inst.cver <;> rfl
+            · rfl
+
+/-! ### non-vacuity: a variable beneath a plain helper is rebound between two queries; a clone made before
+    the change and a wrapper made after it all report the fresh version -/
+def exEvs : List Ev :=
+  [.setVar 5 7, .defPlain 1 11 [5], .defMemento 0 none 10 [1], .query 0, .clone 0, .setVar 5 8, .wrapper 0]
+
+example : (step exH (run exH {} exEvs) (.query 0)).2 =
+    some (version exH [(0, .memento none 10 [1]), (1, .plain true 11 [5]), (5, .var (some 8))] id 0) := by
+  decide +kernel
+example : (step exH (run exH {} exEvs) (.query 1)).2 = (step exH (run exH {} exEvs) (.query 0)).2 := by decide +kernel
+example : (step exH (run exH {} exEvs) (.query 2)).2 = (step exH (run exH {} exEvs) (.query 0)).2 := by decide +kernel
+/-- and the version did change with the variable -/
+example : (step exH (run exH {} (exEvs.take 3)) (.query 0)).2 ≠ (step exH (run exH {} exEvs) (.query 0)).2 := by
+  decide +kernel
+
+end Memento.VersionCache
